@@ -250,6 +250,9 @@ func newGater() (*conngater.BasicConnectionGater, error) {
 // exchangeMetrics is set by the running scenario: clients are then built WithMetrics.
 var exchangeMetrics bool
 
+// exchangeRestart is set by the running scenario: clients are stopped and started again before use.
+var exchangeRestart bool
+
 // newClient builds and starts a real p2p.Exchange on h with the given trusted peers.
 func newClient(h host.Host, trusted []peer.ID, chainID string, opts ...p2p.Option[p2p.ClientParameters]) (*p2p.Exchange[*vh.Header], error) {
 	g, err := newGater()
@@ -269,6 +272,19 @@ func newClient(h host.Host, trusted []peer.ID, chainID string, opts ...p2p.Optio
 	}
 	if err := startScoped(ex.Start); err != nil {
 		return nil, err
+	}
+	if exchangeRestart {
+		// a stopped Exchange can be started again
+		synctest.Wait()
+		c2, cn := vctx(10 * time.Second)
+		err := ex.Stop(c2)
+		cn()
+		if err != nil {
+			return nil, fmt.Errorf("Stop before the restart: %w", err)
+		}
+		if err := startScoped(ex.Start); err != nil {
+			return nil, fmt.Errorf("second Start: %w", err)
+		}
 	}
 	// let the peer tracker subscribe to connectedness events before anybody connects
 	// (connections made between its initial listing and its subscription would go unnoticed)
